@@ -41,10 +41,22 @@ func c14Derived(c *run.Ctx) {
 		}
 		if form&2 == 2 {
 			valK = r.Range(-30, 30)
+			if r.Chance(1, 4) {
+				valK = 0 // a supplied zero is a value, not "unset"
+			}
 			if r.Bool() {
 				kDecl = "override k: i32;"
 			}
 			pc["k"] = float64(valK)
+		}
+		// k2 is derived from k and never supplied; u is an unsigned override supplied with values on both sides of 2^31
+		kDecl += "\noverride k2: i32 = k * 2 + 5;"
+		defU := uint32(r.Range(1, 9))
+		valU := defU
+		uDecl := fmt.Sprintf("override u: u32 = %du;\noverride u2: u32 = u / 3u;", defU)
+		if r.Chance(2, 3) {
+			valU = []uint32{0, 1, 0x7fffffff, 0x80000000, 0xffffffff, 4000000000, 3000000001, r.U32(), r.U32() | 0x80000000}[r.Intn(9)]
+			pc["u"] = float64(valU)
 		}
 		wgAttr := fmt.Sprintf("@workgroup_size(n, %d)", m)
 		derivedWG := r.Bool()
@@ -56,8 +68,9 @@ func c14Derived(c *run.Ctx) {
 		}
 		src := fmt.Sprintf(`%s
 %s
+%s
 var<private> g: i32 = k * 3 + 1;
-struct Out { cnt: atomic<u32>, v: array<i32, 40>, w: array<i32, 12>, }
+struct Out { cnt: atomic<u32>, v: array<i32, 40>, w: array<i32, 12>, x: array<u32, 8>, }
 @group(0) @binding(0) var<storage, read_write> o: Out;
 @compute %s
 fn main(@builtin(local_invocation_index) li: u32) {
@@ -77,9 +90,17 @@ fn main(@builtin(local_invocation_index) li: u32) {
         o.w[9] = (k & 6) | (k ^ 9);
         o.w[10] = k << 2u;
         o.w[11] = 7 %% (abs(k) + 1);
+        o.x[0] = u32(k2);
+        o.x[1] = u2;
+        o.x[2] = u / 3u;
+        o.x[3] = u %% 1000u;
+        o.x[4] = u >> 4u;
+        o.x[5] = u32(u > 5u);
+        o.x[6] = u * 3u + 1u;
+        o.x[7] = max(u, 9u) - min(u, 9u);
     }
 }
-`, nDecl, kDecl, wgAttr)
+`, nDecl, kDecl, uDecl, wgAttr)
 		w := map[string]any{"wgsl": src, "pipeline_constants": fmt.Sprint(pc)}
 		viol := func(class, msg string) run.Outcome {
 			o := run.Outcome{V: run.Violated, Class: "derived:" + class, Reason: id + ": " + msg, Witness: w}
@@ -141,6 +162,27 @@ fn main(@builtin(local_invocation_index) li: u32) {
 					}
 				}
 			}
+			mxu := func(a, b uint32) uint32 {
+				if a > b {
+					return a
+				}
+				return b
+			}
+			mnu := func(a, b uint32) uint32 {
+				if a < b {
+					return a
+				}
+				return b
+			}
+			wantX := []uint32{uint32(k32*2 + 5), valU / 3, valU / 3, valU % 1000, valU >> 4, uint32(b2i(valU > 5)), valU*3 + 1, mxu(valU, 9) - mnu(valU, 9)}
+			for xi, w := range wantX {
+				if got := binary.LittleEndian.Uint32(buf[212+4*xi:]); got != w {
+					o := viol(path+":derived-or-unsigned", fmt.Sprintf("[%s] x[%d] = %d, WGSL prescribes %d (k=%d u=%d)", path, xi, got, w, valK, valU))
+					if o.V == run.Violated {
+						return &o
+					}
+				}
+			}
 			for li := 0; li < 40; li++ {
 				got := int32(binary.LittleEndian.Uint32(buf[4+4*li:]))
 				want := int32(0)
@@ -159,7 +201,7 @@ fn main(@builtin(local_invocation_index) li: u32) {
 			return nil
 		}
 		// IR interpreter on the resolved module
-		bufs := xrt.Buffers{xrt.Slot{A: 0, B: 0}: make([]byte, 212)}
+		bufs := xrt.Buffers{xrt.Slot{A: 0, B: 0}: make([]byte, 244)}
 		if res, err := irx.Run(clone, "main", bufs, irx.Config{}); err != nil || len(res.Traps) > 0 {
 			return id, viol("irx:exec-error", fmt.Sprint(err, res.Traps))
 		}
@@ -176,7 +218,7 @@ fn main(@builtin(local_invocation_index) li: u32) {
 		if err != nil {
 			return id, run.Outcome{V: run.Inconclusive, Reason: "spvx: " + err.Error()}
 		}
-		bufs = xrt.Buffers{xrt.Slot{A: 0, B: 0}: make([]byte, 212)}
+		bufs = xrt.Buffers{xrt.Slot{A: 0, B: 0}: make([]byte, 244)}
 		if res, err := spvx.Run(sm, "main", bufs, xrt.Options{}); err != nil || len(res.Traps) > 0 {
 			return id, viol("spirv:exec-error", fmt.Sprint(err, res.Traps))
 		}
@@ -184,7 +226,7 @@ fn main(@builtin(local_invocation_index) li: u32) {
 			return id, *o
 		}
 		cov["derived:spirv"]++
-		return id, run.Outcome{V: run.Held, Sig: fmt.Sprintf("derived form=%d wg=%v n=%d m=%d k=%d", form, derivedWG, valN, m, valK), Cov: cov,
+		return id, run.Outcome{V: run.Held, Sig: fmt.Sprintf("derived form=%d wg=%v n=%d m=%d k=%d u=%d", form, derivedWG, valN, m, valK, valU), Cov: cov,
 			Sample: map[string]any{"wgsl": src, "pipeline_constants": fmt.Sprint(pc), "invocations": total}}
 	})
 }
